@@ -69,6 +69,9 @@ func (t *ClientTransport) Handshake() (hr *parser.HandshakeResponse, err error) 
 	if err != nil {
 		return
 	}
+	// There is no read limit on the client side. Without this, the default limit of the library
+	// (32768 bytes) would apply, and messages up to the `maxPayload` of the server couldn't be received.
+	t.conn.SetReadLimit(-1)
 
 	// If sid is set this means that we have already connected and
 	// we're using this transport for upgrade purposes.
